@@ -151,8 +151,8 @@ class Tols:
             if L not in wcache:
                 wcache[L] = _an.window(o["win"], L, o.get("psll"))
             w = wcache[L]
-            a = seg_amp(x1, res.D[j], L, w)
-            b = seg_amp(x2, res.D[j], L, w) if x2 is not None else a
+            a = seg_amp(x1, res.D[j], L, w, o["order"])
+            b = seg_amp(x2, res.D[j], L, w, o["order"]) if x2 is not None else a
             self.t.append(_an.bin_tol(L, 2 * np.pi * float(f[j]) / fs, a, b, o["order"]))
 
 
@@ -237,10 +237,10 @@ def make_spec(mode: str, idx: int, case_seed: int) -> Dict[str, Any]:
     s: Dict[str, Any] = {"mode": mode, "idx": idx, "case_seed": case_seed, "cross": cross, "N": N, "fs": fs, "o": o, "rec_seed": int(r.integers(0, 2 ** 62)),
                          "scale": SCALES[idx % 3], "layout": ["2xN", "Nx2"][(idx // 2) % 2]}
     if mode == "single":
-        L = int(1 + idx % 8) if idx % 3 else int(r.integers(9, 200))
+        L = int(1 + idx % 8) if idx % 5 else int(r.integers(9, 200))
         s["L"] = L
         s["N"] = int(L + r.choice([0, 1, 2, int(r.integers(0, 40)), int(r.integers(0, 4 * L + 1))]))
-        s["freq"] = float(r.uniform(0.0, 0.5)) * fs if idx % 5 else [0.0, 0.5 * fs][(idx // 5) % 2]
+        s["freq"] = float(r.uniform(0.0, 0.5)) * fs if idx % 7 else [0.0, 0.5 * fs][(idx // 7) % 2]
     p = max(order, 0)
     # trends of degree <= p for each channel (top coefficient kept away from 0) and one of degree p+1 (centred)
     for nm in ("T1", "T2"):
@@ -317,6 +317,9 @@ def check_next_degree(P: C.Part, s: Dict[str, Any], be: str, r_base, r_next, t_b
         if L < order + 2 or L * len(r_base.D[j]) > 40000:
             continue
         tol = t_base.t[j][0] + t_next.t[j][0]
+        if not tol > 1e-290:                      # an all-zero window (e.g. hann(2)): nothing to compare
+            P.hit("next-degree.zero-window")
+            continue
         Xa, Xb = ref_delta_XX(x1, x1n, r_base, j, o, s["fs"], order)
         dref = Xb - Xa
         P.cases += 1
@@ -344,11 +347,15 @@ def run_spec(P: C.Part, s: Dict[str, Any], backends: List[str], cuda: Optional[C
     order = o["order"]
     rp0 = {"spec": s}
     if s["mode"] != "single":
+        import logging
         try:
+            logging.disable(logging.CRITICAL)
             with warnings.catch_warnings():
                 warnings.simplefilter("ignore")
                 _an.analyzer(pack(x1, x2, "2xN"), fs, **o).plan()
-        except (Exception, SystemExit) as ex:       # plan errors are C02's business
+            logging.disable(logging.NOTSET)
+        except (Exception, SystemExit) as ex:       # plan errors are C02's business (some schedulers call sys.exit() on an empty plan)
+            logging.disable(logging.NOTSET)
             P.hit("plan-raised(skipped)")
             if len(P.notes) < 4:
                 P.notes.append(f"plan raised for {short(s)}: {ex!r}"[:160])
@@ -533,8 +540,8 @@ def correspondence(ctx) -> C.Part:
         Q = core._build_Q(L, order) if order >= 1 else None
         name = {-1: "_stats_win_only_", 0: "_stats_detrend0_"}.get(order, "_stats_poly_") + ("csd" if cross else "auto")
         args = [x1] + ([x2] if cross else []) + [starts, L, w, omega] + ([Q] if order >= 1 else [])
-        a = seg_amp(x1, starts, L, w)
-        b = seg_amp(x2, starts, L, w) if cross else a
+        a = seg_amp(x1, starts, L, w, order)
+        b = seg_amp(x2, starts, L, w, order) if cross else a
         tXX, tYY, tXY, tM2 = _an.bin_tol(L, omega, a, b, order)
         tol = (tXX, tYY, tXY, tXY, tM2)
         mdl = tuple(ctx.driver.floats(ref_line(order, cross, x1, x2, starts, L, w, omega, Q)))
